@@ -10,6 +10,7 @@ import (
 	"testing/synctest"
 
 	"github.com/buildbarn/bb-remote-execution/pkg/proto/buildqueuestate"
+	"github.com/buildbarn/bb-remote-execution/pkg/scheduler"
 	status_pb "google.golang.org/genproto/googleapis/rpc/status"
 	"google.golang.org/protobuf/types/known/emptypb"
 
@@ -57,6 +58,7 @@ type run struct {
 	streams  map[int]*streamMon // C02 monitor state per client
 	doneTask map[int]string     // op name -> final payload "code/tok" (C03 same-final, C01 no restart)
 	hist     *hx.Result
+	prevSt   *scheduler.VerifState // state before the current segment (for per-decision checks)
 	noModel  bool // monitor-only mode: used to search for a failing input after a mismatch
 }
 
@@ -77,6 +79,11 @@ func (r *run) failf(kind, prop, name, format string, args ...any) {
 		r.fail = &failure{kind: kind, prop: prop, name: name, what: fmt.Sprintf(format, args...)}
 	}
 }
+
+// windowChecks are additional per-segment checks (e.g. the C04 fairness check of each
+// hand-out decision); they see the implementation state before and after the segment
+// and its events, and call r.failf on a violation.
+var windowChecks []func(r *run, primary string, before, after *scheduler.VerifState, events []string)
 
 func entityOf(ev string) string {
 	f := strings.Fields(ev)
@@ -144,6 +151,14 @@ func (r *run) window(primary string, an string) {
 	dump, assigned := w.canon(st)
 	hints := r.hints(assigned, an)
 	r.monitor(impl, st, dump)
+	for _, f := range windowChecks {
+		if r.fail == nil {
+			f(r, primary, r.prevSt, st, impl)
+		}
+	}
+	prevSt := r.prevSt
+	_ = prevSt
+	r.prevSt = st
 	if r.fail != nil {
 		return
 	}
